@@ -167,6 +167,28 @@ def run(tier, seed):
                                            'impl': got, 'stored': repr(want_v), 'written': repr(gen_v), 'stream': 'coords-types'})
                         if (gen_v is None) != (want_v is None):
                             chk.mismatch('external:openpyxl-normal-mode', {'cell': (c, r), 'written': repr(gen_v), 'normal_mode': repr(want_v)})
+        # one parser whose entry cell is set once, then given workbook after workbook: each time the cell read is the one of the workbook at the path
+        from openpyxl import Workbook as _WB
+        pe = m['Parser']().disable_safety_check()
+        pe.set_entrypoint_cell(Cell('Beta', 'D', '7'))
+        for k, (order, v) in enumerate(((['Alpha', 'Beta'], 111), (['Alpha', 'Beta'], 2.5), (['Beta', 'Gamma', 'Alpha'], 'third'), (['Gamma', 'Alpha', 'Beta'], True))):
+            wb2 = _WB()
+            wb2.remove(wb2.active)
+            for t in order:
+                ws = wb2.create_sheet(t)
+                ws.cell(row=7, column=4, value=v if t == 'Beta' else 'not this sheet')
+            path2 = os.path.join(d, 'entry_%d.xlsx' % k)
+            wb2.save(path2)
+            try:
+                cls2 = realcode.load_class(pe.set_excel_file_path(path2).get_translation())
+                got = outcome_any(lambda: realcode.executor_for(cls2).get_cell(Cell('Beta', 3, 6)).value)
+            except Exception as e:  # noqa
+                got = 'E' + core.exc_class(e)
+            chk.count('entry-kept-across-workbooks')
+            chk.seen(('entry-kept', k))
+            if got != enc_any(v):
+                chk.violation({'why': 'a parser whose entry cell was set once does not read that cell from the workbook now at the path', 'workbook': k, 'sheets': order,
+                               'stored': repr(v), 'impl': got, 'stream': 'entry-kept'})
     finally:
         shutil.rmtree(d, ignore_errors=True)
     return chk.finish()
